@@ -16,7 +16,7 @@ import Biogo.Generated.Alphabets
 namespace Biogo.Drive.C01
 open Biogo.Wire Biogo.Go.Bytes Biogo.Drive.Seqio Biogo.Spec.Seqio
 
-def ops : List String := ["fa", "fq", "fva", "fvq"]
+def ops : List String := ["fa", "fq", "fap", "fva", "fvq"]
 
 /-- what is demanded of a parsed observation: `ns` the counts the `Write` calls returned, `ds` the
     bytes each of them emitted (both as the harness prints them), `calls` the reader's call history
@@ -51,13 +51,16 @@ def verdict (wf : Bool) (expected : List String) (model obs : String) (tags : Li
   | some why => fail why tags
   | none => if model == obs then ok tags else diff (model.take 600).toString tags
 
-def handleFa (width : Nat) (typ alpha : String) (rs : List (Bytes × Bytes × Bytes × Bytes)) (obs : String) : Verdict :=
+def handleFa (width : Nat) (typ alpha : String) (rs : List (Bytes × Bytes × Bytes × Bytes)) (obs : String)
+    (fastaCfg : Biogo.Fasta.Cfg := fastaCfg) (userPrefixes : Bool := false) : Verdict :=
   let recs : List Biogo.Fasta.Rec := rs.map fun (n, d, l, _) => ⟨n, d, l⟩
-  let wf := width ≥ 1 && recs.all wfFasta
+  -- with user-set prefixes only the write count is demanded (the statement names the default reader/writer)
+  let wf := width ≥ 1 && recs.all wfFasta && !userPrefixes
   let maxLen := recs.foldl (fun m r => max m r.letters.length) 0
   let tags := ["fasta", "typ-" ++ typ, alpha, s!"recs{min recs.length 3}", lenTag maxLen,
                if width ≤ 3 then "width1-3" else if width < 4096 then "width<4096" else "width>=4096"]
              ++ (if wf then (if recs.isEmpty then ["wf"] else ["wf", "nt"]) else ["nonwf"])
+             ++ (if userPrefixes then ["user-prefixes"] else [])
   let expected := expectedFa recs
   let model :=
     match Biogo.Fasta.writeAll { cfg := fastaCfg, width := width } {} recs with
@@ -134,6 +137,10 @@ def handle (line : String) : String :=
       match parseNat width, parseRecs rest with
       | some w, some rs => handleFa w typ alpha rs obs
       | _, _ => bad "fa"
+    | "fap" :: width :: idp :: sp :: typ :: alpha :: rest =>
+      match parseNat width, bytesOfHex idp, bytesOfHex sp, parseRecs rest with
+      | some w, some idp, some sp, some rs => handleFa w typ alpha rs obs { idPrefix := idp, seqPrefix := sp } true
+      | _, _, _, _ => bad "fap"
     | "fq" :: qid :: typ :: enc :: alpha :: rest =>
       match parseBool qid, encOfString enc, parseRecs rest with
       | some qid, some enc, some rs => handleFq qid typ enc alpha rs obs
